@@ -17,7 +17,7 @@ use subtle::{Choice, CtOption};
 #[cfg(kani)]
 fn no_return() { unsafe { let _ = 255u8.unchecked_add(1); } }
 #[cfg(not(kani))]
-fn no_return() {}
+fn no_return() { crate::src::missed_panic(); }
 
 fn wbit(w: &[u64], i: u32) -> bool { (w[(i / 64) as usize] >> (i % 64)) & 1 == 1 }
 fn mk192p(lo: u128, hi: u64) -> U192 { U192::from_words([lo as u64, (lo >> 64) as u64, hi]) }
